@@ -341,6 +341,17 @@ InstTrigger(i, n) ==
   /\ Rec("insttrigger", [i |-> i, n |-> n], "ok", P', cdict, cells, I',
          IF I[i].vals[n] = Unset THEN {"KF_TriggerPinsValue"} ELSE {})
 
+\* `with i.param.update(n=v): pass`: on exit the previous value is back -- and an instance that never set n keeps
+\* following the class (known finding: the restoring update stores the value on the instance)
+InstUpdCtx(i, n, v) ==
+  /\ "updctx" \in Acts /\ Step /\ i \in 1..Len(I) /\ n \in Names /\ Kind[n] = "plain" /\ Declared(I[i].cls, n) /\ ~EditOpen
+  /\ LET mk == I[i].ip[n] = 0 /\ P[Lookup(I[i].cls, n)].perinst IN
+     /\ P' = IF mk THEN Append(P, P[Lookup(I[i].cls, n)]) ELSE P
+     /\ I' = [I EXCEPT ![i].ip[n] = IF mk THEN Len(P) + 1 ELSE @]
+  /\ UNCHANGED <<cdict, cells>>
+  /\ Rec("instupdctx", [i |-> i, n |-> n, v |-> v], "ok", P', cdict, cells, I',
+         IF I[i].vals[n] = Unset THEN {"KF_UpdateCtxPinsValue"} ELSE {})
+
 \* in-place mutation of the object currently held by instance i (or class c) under name n
 MutateInst(i, n) ==
   /\ "mutate" \in Acts /\ Step /\ i \in 1..Len(I) /\ Declared(I[i].cls, n) /\ InstVal(i, n).t = "cell"
@@ -387,6 +398,7 @@ Next ==
   \/ \E c \in CSet, n \in AllNames : \E b \in {1, 2} : ClassMeta(c, n, b)
   \/ \E i \in 1..MaxInst, n \in AllNames, b \in BOOLEAN : InstConst(i, n, b)
   \/ \E i \in 1..MaxInst, n \in Names : InstTrigger(i, n)
+  \/ \E i \in 1..MaxInst, n \in Names : \E v \in IntVals : InstUpdCtx(i, n, v)
   \/ \E i \in 1..MaxInst, n \in AllNames : MutateInst(i, n)
   \/ \E c \in CSet, n \in AllNames : MutateClass(c, n)
   \/ \E i \in 1..MaxInst : EnterEdit(i) \/ ExitEdit(i, FALSE) \/ ExitEdit(i, TRUE)
